@@ -253,13 +253,14 @@ def run_coins(shard, rec, B):
     rec.batch("coin.samples", tot, 0, None)
     rec.check("coin.fair", tl > stats.ALPHA, ["single coin", tot], True, observed={"ones": ones, "n": tot, "tail": tl})
     cases = []
-    for N in (66, 72, 130):
+    for N in ((66, 72, 130) if env.mode() == "jit" else (66,)):
         xs = np.zeros((N, 2 * N), dtype=np.int64)
         xs[np.arange(N), 2 * np.arange(N)] = 1
         cases.append(("all-X on |0..0>, N=%d" % N, N, xs, "state"))
     alt = np.array([[1, 0] if k % 2 == 0 else [0, 1] for k in range(80)])     # X,Z,X,Z,... on one qubit: every outcome is a fair coin
     cases.append(("alternating X/Z x80 on one qubit", 1, alt, "state"))
-    cases.append(("measurement layer on all 70 qubits of |+..+>", 70, None, "layer"))
+    if env.mode() == "jit":
+        cases.append(("measurement layer on all 70 qubits of |+..+>", 70, None, "layer"))
     for name, N, obs, how in cases:
         outs = []
         for rep in range(R):
